@@ -28,11 +28,13 @@ def text(t) -> str:
     return "".join(t)
 
 
-def build_raw(ops: list[dict]) -> dict:
-    """OpenAPI document for the spec's operation universe: every operation has a query parameter and a JSON body, so that
-    every hook container is generated for every operation."""
+def build_raw(ops: list[dict], which: str = "A") -> dict:
+    """OpenAPI document for the operations of schema `which` of the spec's universe: every operation has a query parameter and
+    a JSON body, so that every hook container is generated for every operation."""
     paths: dict = {}
     for op in ops:
+        if op.get("schema", "A") != which:
+            continue
         d: dict = {
             "parameters": [{"name": "q", "in": "query", "schema": {"type": "string", "maxLength": 2}}],
             "requestBody": {"required": True, "content": {"application/json": {"schema": {
@@ -44,7 +46,7 @@ def build_raw(ops: list[dict]) -> dict:
         if op["opid"]:
             d["operationId"] = text(op["opid"])
         paths.setdefault(text(op["path"]), {})[text(op["method"])] = d
-    return {"openapi": "3.0.2", "info": {"title": "c19", "version": "1"}, "paths": paths}
+    return {"openapi": "3.0.2", "info": {"title": "c19-" + which, "version": "1"}, "paths": paths}
 
 
 def atom_kwargs(atoms: list[dict]) -> dict:
@@ -81,45 +83,59 @@ def _setup(ops: list[dict]) -> dict:
         from schemathesis import auths, hooks, schemas
         from schemathesis.core import NOT_SET
 
-        raw = build_raw(ops)
+        raws = {w: build_raw(ops, w) for w in ("A", "B")}
         _state.clear()
         _state.update(
-            key=key, raw=raw, schemathesis=schemathesis, hooks=hooks, schemas=schemas, auths=auths, st=st, given=given,
+            key=key, raws=raws, schemathesis=schemathesis, hooks=hooks, schemas_mod=schemas, auths=auths, st=st, given=given,
             NOT_SET=NOT_SET,
             settings=settings(max_examples=1, database=None, derandomize=True, phases=[Phase.generate], deadline=None,
                               suppress_health_check=list(HealthCheck)),
-            schema=schemathesis.openapi.from_dict(raw),
-            labels=[(text(o["path"]), text(o["method"]).upper()) for o in ops],
+            schemas={w: schemathesis.openapi.from_dict(raws[w]) for w in ("A", "B")},
+            # per schema: (index in the spec's operation list, path, METHOD)
+            idx={w: [(i, text(o["path"]), text(o["method"]).upper()) for i, o in enumerate(ops) if o.get("schema", "A") == w]
+                 for w in ("A", "B")},
+            nops=len(ops),
         )
     return _state
 
 
-def _fresh_schema(st_: dict, fresh: bool):
-    """A schema whose hook / auth state is that of a newly loaded one.
+def _fresh_schemas(st_: dict, fresh: bool) -> dict:
+    """The two schemas of the universe with the hook / auth state of newly loaded ones.
 
-    fresh=True loads a new schema object.  fresh=False reuses the per-process schema (operations and their cached base
+    fresh=True loads new schema objects.  fresh=False reuses the per-process schemas (operations and their cached base
     strategies are expensive to rebuild) and re-creates exactly the fields a new instance gets: `hooks` (dataclass default
-    factory), `hook` (BaseSchema.__post_init__) and `auth`."""
+    factory), `hook` (BaseSchema.__post_init__) and `auth`.  Either way the SAME schema and operation objects serve every
+    generation of one history."""
     if fresh:
-        return st_["schemathesis"].openapi.from_dict(st_["raw"])
-    schema = st_["schema"]
-    schema.hooks = st_["hooks"].HookDispatcher(scope=st_["hooks"].HookScope.SCHEMA)
-    schema.auth = st_["auths"].AuthStorage()
-    schema.__post_init__()
-    return schema
+        return {w: st_["schemathesis"].openapi.from_dict(st_["raws"][w]) for w in ("A", "B")}
+    for schema in st_["schemas"].values():
+        schema.hooks = st_["hooks"].HookDispatcher(scope=st_["hooks"].HookScope.SCHEMA)
+        schema.auth = st_["auths"].AuthStorage()
+        schema.__post_init__()
+    return st_["schemas"]
 
 
-def _draw_all(st_: dict, schema, **kw) -> list:
-    out: list = []
-    strategies = [schema[p][m].as_strategy(**kw) for p, m in st_["labels"]]
+def _draw_all(st_: dict, schemas: dict, order: str, kw_a: dict) -> list:
+    """One generated case per operation of the schemas named in `order` ("AB" / "BA" / "A"): strategies are built and drawn
+    in that order; returns the cases in the spec's operation order (None for a schema that is not used).  Schema A is generated
+    with the test-level arguments, schema B without."""
+    cases: list = [None] * st_["nops"]
+    entries, strategies = [], []
+    for which in order:
+        for i, p, m in st_["idx"][which]:
+            entries.append(i)
+            strategies.append(schemas[which][p][m].as_strategy(**(kw_a if which == "A" else {})))
+    got: list = []
 
     @st_["given"](st_["st"].tuples(*strategies))
     @st_["settings"]
-    def collect(cases):
-        out[:] = cases
+    def collect(drawn):
+        got[:] = drawn
 
     collect()
-    return out
+    for i, case in zip(entries, got):
+        cases[i] = case
+    return cases
 
 
 def _split(name: str) -> tuple[str, str]:
@@ -143,38 +159,40 @@ def _make_hook(h: int, name: str, own_name: bool, log: set, NOT_SET):
 
     if kind == "map":
         def hook(context, value):
-            log.add((h, context.operation.label))
+            log.add((h, context.operation.schema.raw_schema["info"]["title"], context.operation.label))
             return mark(value)
     elif kind == "filter":
         def hook(context, value):
-            log.add((h, context.operation.label))
+            log.add((h, context.operation.schema.raw_schema["info"]["title"], context.operation.label))
             return True
     elif kind == "flatmap":
         def hook(context, value):
             from hypothesis import strategies as st
 
-            log.add((h, context.operation.label))
+            log.add((h, context.operation.schema.raw_schema["info"]["title"], context.operation.label))
             return st.just(mark(value))
     else:
         def hook(context, strategy):
-            log.add((h, context.operation.label))
+            log.add((h, context.operation.schema.raw_schema["info"]["title"], context.operation.label))
             return strategy.map(mark)
     hook.__name__ = name if own_name else "user_function_%d" % h
     hook.__qualname__ = hook.__name__
     return hook
 
 
-def observe_hooks(events: list[dict], ops: list[dict], fresh: bool = False) -> dict:
-    """Replay a registration history on new dispatchers and report, per registered hook and operation, whether the hook's
-    effect is visible in a case generated for that operation. Returns {"obs": matrix, "called": matrix}."""
+def observe_hooks(events: list[dict], ops: list[dict], order: str = "AB", fresh: bool = False) -> dict:
+    """Replay a history on new dispatchers.  At every Generate event and once at the end a case is generated for every operation
+    of both schemas (same schema / operation objects throughout) and it is reported, per hook registered so far and operation,
+    whether the hook's effect is visible in that case.  Returns {"obs": [matrix per generation], "called": [...], "err", "exc"}."""
     st_ = _setup(ops)
-    hooks_mod, schemas_mod = st_["hooks"], st_["schemas"]
+    hooks_mod, schemas_mod = st_["hooks"], st_["schemas_mod"]
     HD, Scope = hooks_mod.HookDispatcher, hooks_mod.HookScope
     glob = HD(scope=Scope.GLOBAL)  # what `schemathesis.hooks` creates at import time
     saved = (hooks_mod.GLOBAL_HOOK_DISPATCHER, schemas_mod.GLOBAL_HOOK_DISPATCHER)
     hooks_mod.GLOBAL_HOOK_DISPATCHER = schemas_mod.GLOBAL_HOOK_DISPATCHER = glob
     try:
-        schema = _fresh_schema(st_, fresh)
+        schemas = _fresh_schemas(st_, fresh)
+        schema = schemas["A"]
 
         def test_function(case):
             pass
@@ -227,34 +245,55 @@ def observe_hooks(events: list[dict], ops: list[dict], fresh: bool = False) -> d
             else:
                 raise ValueError(form)
 
+        titles = {w: st_["raws"][w]["info"]["title"] for w in ("A", "B")}
+        where = [None] * st_["nops"]
+        for w in ("A", "B"):
+            for i, p_, m_ in st_["idx"][w]:
+                where[i] = (titles[w], "%s %s" % (m_, p_))
+
+        def generate(mode: str) -> tuple[list, list]:
+            log.clear()
+            kw = {"hooks": hooks_mod.HookDispatcherMark.get(test_function)} if mode == "with_test" else {}
+            cases = _draw_all(st_, schemas, order, kw)
+            obs, called = [], []
+            for h, name in enumerate(names, 1):
+                kind, container = _split(name)
+                row_obs, row_called = [], []
+                for case, (title, label) in zip(cases, where):
+                    was_called = (h, title, label) in log
+                    if kind == "filter" or case is None:
+                        seen = was_called
+                    else:
+                        value = case.query if container == "case" else getattr(case, container)
+                        seen = value is not None and hasattr(value, "keys") and ("m%d" % h) in value
+                    row_obs.append(1 if seen else 0)
+                    row_called.append(1 if was_called else 0)
+                obs.append(row_obs)
+                called.append(row_called)
+            return obs, called
+
+        all_obs, all_called = [], []
         for k, e in enumerate(events, 1):
+            if e["ev"] == "gen":
+                o_, c_ = generate(e["f"])
+                all_obs.append(o_)
+                all_called.append(c_)
+                continue
             try:
                 perform(e)
             except Exception as exc:  # the spec says every call of the history succeeds
                 return {"obs": [], "called": [], "err": k, "exc": "%s: %s" % (type(exc).__name__, exc)}
-        cases = _draw_all(st_, schema, hooks=hooks_mod.HookDispatcherMark.get(test_function))
-        obs, called = [], []
-        for h, name in enumerate(names, 1):
-            kind, container = _split(name)
-            row_obs, row_called = [], []
-            for case, (p, m) in zip(cases, st_["labels"]):
-                was_called = (h, "%s %s" % (m, p)) in log
-                if kind == "filter":
-                    seen = was_called
-                else:
-                    value = case.query if container == "case" else getattr(case, container)
-                    seen = value is not None and hasattr(value, "keys") and ("m%d" % h) in value
-                row_obs.append(1 if seen else 0)
-                row_called.append(1 if was_called else 0)
-            obs.append(row_obs)
-            called.append(row_called)
-        return {"obs": obs, "called": called, "err": 0, "exc": ""}
+        o_, c_ = generate("with_test")
+        all_obs.append(o_)
+        all_called.append(c_)
+        return {"obs": all_obs, "called": all_called, "err": 0, "exc": ""}
     finally:
         hooks_mod.GLOBAL_HOOK_DISPATCHER, schemas_mod.GLOBAL_HOOK_DISPATCHER = saved
 
 
-def observe_auth(events: list[dict], ops: list[dict], fresh: bool = False) -> list[int]:
-    """Replay an auth-registration history; per operation the id of the provider whose data is on the generated case (0: none)."""
+def observe_auth(events: list[dict], ops: list[dict], order: str = "AB", fresh: bool = False) -> list[int]:
+    """Replay an auth-registration history; per operation (both schemas, used in the given order) the id of the provider whose
+    data is on the generated case (0: none)."""
     import requests.auth
 
     st_ = _setup(ops)
@@ -262,7 +301,8 @@ def observe_auth(events: list[dict], ops: list[dict], fresh: bool = False) -> li
     glob = auths.GLOBAL_AUTH_STORAGE  # == schemathesis.auth
     glob.unregister()
     try:
-        schema = _fresh_schema(st_, fresh)
+        schemas = _fresh_schemas(st_, fresh)
+        schema = schemas["A"]
 
         def test_function(case):
             pass
@@ -306,9 +346,12 @@ def observe_auth(events: list[dict], ops: list[dict], fresh: bool = False) -> li
                 apply_chain(schema.auth(make_provider()), e["chain"])(test_function)
             else:
                 raise ValueError(form)
-        cases = _draw_all(st_, schema, auth_storage=auths.AuthStorageMark.get(test_function))
+        cases = _draw_all(st_, schemas, order, {"auth_storage": auths.AuthStorageMark.get(test_function)})
         out = []
         for case in cases:
+            if case is None:
+                out.append(0)
+                continue
             seen = []
             header = (case.headers or {}).get("X-Auth")
             if header:
@@ -324,23 +367,35 @@ def observe_auth(events: list[dict], ops: list[dict], fresh: bool = False) -> li
 # ---------------------------------------------------------------------------------------------------
 # comparison, signatures
 # ---------------------------------------------------------------------------------------------------
-def hook_disagreements(expect: list[list[int]], res: dict, events: list[dict] | None = None) -> list[tuple[int, int, str]]:
-    """Cells (hook, operation, direction) where observation and spec differ; a call that raised is (hook, 0, "raised")."""
+def hook_disagreements(expect: list, res: dict, events: list[dict] | None = None) -> list[tuple[int, int, int, str]]:
+    """Cells (generation, hook, operation, direction) where observation and spec differ; a call that raised is
+    (0, hook, 0, "raised")."""
     if res["err"]:
         h = sum(1 for e in (events or [])[: res["err"]] if e["ev"] == "reg") if events else res["err"]
-        return [(h or 1, 0, "raised")]
-    obs = res["obs"]
+        return [(0, h or 1, 0, "raised")]
     out = []
-    for h, (er, orow) in enumerate(zip(expect, obs), 1):
-        for o, (e, x) in enumerate(zip(er, orow), 1):
-            if e != x:
-                out.append((h, o, "spurious" if x else "missing"))
+    for j, (em, om) in enumerate(zip(expect, res["obs"]), 1):
+        for h, (er, orow) in enumerate(zip(em, om), 1):
+            for o, (e, x) in enumerate(zip(er, orow), 1):
+                if e != x:
+                    out.append((j, h, o, "spurious" if x else "missing"))
     return out
 
 
-def hook_signature(events: list[dict], h: int, direction: str, obs_row: list[int] | None = None) -> str:
-    """Form sequence reduced to what can matter for hook h: was it unregistered; does it go through the *_case path; is it
-    the only registration made through its registrar (then its own form matters) or does it share the registrar with others."""
+def _twin(ops: list[dict], o: int) -> int:
+    """The operation of the other schema with the same label (0: none)."""
+    me = ops[o - 1]
+    for q, other in enumerate(ops, 1):
+        if q != o and other["method"] == me["method"] and other["path"] == me["path"]:
+            return q
+    return 0
+
+
+def hook_signature(events: list[dict], h: int, direction: str, obs_row: list[int] | None = None, j: int = 0, o: int = 0,
+                   expect: list | None = None, ops: list[dict] | None = None) -> str:
+    """History reduced to what can matter for hook h: did what is expected of it change since an earlier generation of the same
+    history; does its filter tell two same-label operations of different schemas apart; was it unregistered; does it go through
+    the *_case path; is it the only registration made through its registrar (then its own form matters) or not."""
     regs = [e for e in events if e["ev"] == "reg"]
     e = regs[h - 1]
     pos = [i for i, x in enumerate(events) if x["ev"] == "reg"][h - 1]
@@ -348,6 +403,15 @@ def hook_signature(events: list[dict], h: int, direction: str, obs_row: list[int
     considered = regs[: h - 1] if direction == "raised" else regs[: h - 1] + regs[h:]
     shared = any(x["r"] == e["r"] and x["f"] != "apply" for x in considered)
     if direction != "raised":
+        if expect is not None and j > 1 and o:
+            now = expect[j - 1][h - 1][o - 1]
+            earlier = [(m[h - 1][o - 1] if len(m) >= h else 0) for m in expect[: j - 1]]
+            if any(v != now for v in earlier):
+                return "C19:generate:not-the-hooks-in-force-at-this-generation:%s" % direction
+        if expect is not None and ops is not None and o and _twin(ops, o):
+            row = expect[j - 1][h - 1]
+            if row[o - 1] != row[_twin(ops, o) - 1] and scope == "global":
+                return "C19:same-label-operations-of-two-schemas:%s" % direction
         if any(x["ev"] == "unreg" and x["t"] == h and x["r"] == scope for x in events[pos + 1:]):
             return "C19:unregister:%s" % ("still-applied" if direction == "spurious" else "missing")
         if e["n"].endswith("_case"):
@@ -364,6 +428,12 @@ def hook_signature(events: list[dict], h: int, direction: str, obs_row: list[int
     return "C19:register:single:%s" % e["f"]
 
 
+def _cell_signature(case: dict, res: dict, cell: tuple, ops: list[dict]) -> str:
+    j, h, o, d = cell
+    row = res["obs"][j - 1][h - 1] if j else None
+    return hook_signature(case["events"], h, d, row, j, o, case["expect"], ops)
+
+
 def auth_verdicts(case: dict, obs: list[int]) -> list[tuple[int, str]]:
     out = []
     for o, x in enumerate(obs, 1):
@@ -376,6 +446,10 @@ def auth_verdicts(case: dict, obs: list[int]) -> list[tuple[int, str]]:
 
 def auth_signature(case: dict, o: int, kind: str, obs: list[int]) -> str:
     regs = [e for e in case["events"] if e["ev"] == "areg"]
+    ops = _CAT.get("ops") or []
+    tw = _twin(ops, o) if ops else 0
+    if tw and any(r[o - 1] != r[tw - 1] and regs[p]["s"] == "global" for p, r in enumerate(case["may"])):
+        return "C19:auth:same-label-operations-of-two-schemas:%s" % kind
     if kind == "unsound":
         x = obs[o - 1]
         if not 1 <= x <= len(regs):
@@ -394,6 +468,8 @@ def _short(events: list[dict]) -> str:
             parts.append("%s:%s[%s]%s" % (e["r"], e["f"], e["c"], e["n"]))
         elif e["ev"] == "unreg":
             parts.append("%s.unregister(#%d)" % (e["r"], e["t"]))
+        elif e["ev"] == "gen":
+            parts.append("generate(%s)" % e["f"])
         elif e["ev"] == "areg":
             parts.append("auth %s:%s[%s]" % (e["s"], e["f"], e["c"]))
         else:
@@ -406,22 +482,22 @@ def _short(events: list[dict]) -> str:
 # ---------------------------------------------------------------------------------------------------
 def _work_hooks(item: str):
     case = json.loads(item)
-    return observe_hooks(concretise(case["events"], _CAT), _CAT["ops"])
+    return observe_hooks(concretise(case["events"], _CAT), _CAT["ops"], case.get("order", "AB"))
 
 
 def _work_hooks_fresh(item: str):
     case = json.loads(item)
-    return observe_hooks(concretise(case["events"], _CAT), _CAT["ops"], fresh=True)
+    return observe_hooks(concretise(case["events"], _CAT), _CAT["ops"], case.get("order", "AB"), fresh=True)
 
 
 def _work_auth(item: str):
     case = json.loads(item)
-    return observe_auth(concretise(case["events"], _CAT), _CAT["ops"])
+    return observe_auth(concretise(case["events"], _CAT), _CAT["ops"], case.get("order", "AB"))
 
 
 def _work_auth_fresh(item: str):
     case = json.loads(item)
-    return observe_auth(concretise(case["events"], _CAT), _CAT["ops"], fresh=True)
+    return observe_auth(concretise(case["events"], _CAT), _CAT["ops"], case.get("order", "AB"), fresh=True)
 
 
 def _enumerate(module: str, cfg: str, timeout: int = 3000):
@@ -440,18 +516,19 @@ def _enumerate(module: str, cfg: str, timeout: int = 3000):
     return res, items, cat[0]
 
 
-def _called_without_effect(events: list[dict], res: dict) -> list[tuple[int, int]]:
+def _called_without_effect(events: list[dict], res: dict) -> list[tuple[int, int, int]]:
     """A map / flatmap / before_generate hook that was called for an operation but whose result is not in the generated data."""
     if res["err"]:
         return []
     names = [e["n"] for e in events if e["ev"] == "reg"]
     out = []
-    for h, name in enumerate(names, 1):
-        if _split(name)[0] == "filter":
-            continue
-        for o, (x, c) in enumerate(zip(res["obs"][h - 1], res["called"][h - 1]), 1):
-            if x != c:
-                out.append((h, o))
+    for j, (om, cm) in enumerate(zip(res["obs"], res["called"]), 1):
+        for h, (orow, crow) in enumerate(zip(om, cm), 1):
+            if _split(names[h - 1])[0] == "filter":
+                continue
+            for o, (x, c) in enumerate(zip(orow, crow), 1):
+                if x != c:
+                    out.append((j, h, o))
     return out
 
 
@@ -462,10 +539,11 @@ def _hook_bad(case: dict, res: dict) -> bool:
 def _hook_violations(case: dict, res: dict, cat: dict) -> list[Violation]:
     out = []
     events = concretise(case["events"], cat)
-    data = {"kind": "hooks", "events": events, "ops": cat["ops"], "expect": case["expect"]}
+    data = {"kind": "hooks", "events": events, "ops": cat["ops"], "order": case.get("order", "AB"), "expect": case["expect"]}
     seen_sig = set()
-    for h, o, d in hook_disagreements(case["expect"], res, case["events"]):
-        sig = hook_signature(case["events"], h, d, res["obs"][h - 1] if o else None)
+    for cell in hook_disagreements(case["expect"], res, case["events"]):
+        j, h, o, d = cell
+        sig = _cell_signature(case, res, cell, cat["ops"])
         if sig in seen_sig:
             continue
         seen_sig.add(sig)
@@ -473,15 +551,18 @@ def _hook_violations(case: dict, res: dict, cat: dict) -> list[Violation]:
             summary = "registration #%d raised %s in history: %s" % (h, res["exc"], _short(case["events"]))
         else:
             op = cat["ops"][o - 1]
-            summary = "hook #%d %s for %s %s (expected row %s, observed %s) in history: %s" % (
-                h, "applied although its own filter excludes the operation / it is unregistered" if d == "spurious"
-                else "not applied although its own filter selects the operation",
-                text(op["method"]).upper(), text(op["path"]), case["expect"][h - 1], res["obs"][h - 1], _short(case["events"]))
+            summary = "generation %d of %d: hook #%d %s for %s %s of schema %s (expected row %s, observed %s) in history: %s [schemas used in order %s]" % (
+                j, len(case["expect"]), h,
+                "applied although its own filter / scope excludes the operation or it is not registered" if d == "spurious"
+                else "not applied although it is registered and its own filter selects the operation",
+                text(op["method"]).upper(), text(op["path"]), op.get("schema", "A"), case["expect"][j - 1][h - 1], res["obs"][j - 1][h - 1],
+                _short(case["events"]), case.get("order", "AB"))
         out.append(Violation(sig, summary, data))
-    for h, o in _called_without_effect(case["events"], res)[:1]:
+    for j, h, o in _called_without_effect(case["events"], res)[:1]:
         out.append(Violation(
             "C19:data:hook-called-but-effect-not-in-generated-data",
-            "hook #%d called=%s but marker in data=%s in history: %s" % (h, res["called"][h - 1], res["obs"][h - 1], _short(case["events"])),
+            "generation %d: hook #%d called=%s but marker in data=%s in history: %s" % (
+                j, h, res["called"][j - 1][h - 1], res["obs"][j - 1][h - 1], _short(case["events"])),
             data))
     return out
 
@@ -490,7 +571,8 @@ def run(ctx: Ctx) -> Outcome:
     global _CAT
     out = Outcome()
     rng = random.Random(ctx.seed)
-    hook_cfgs = ["Hooks_quick.cfg"] if ctx.quick else ["Hooks_thorough_a.cfg", "Hooks_thorough_b.cfg"]
+    hook_cfgs = ["Hooks_quick.cfg", "Hooks_gen_quick.cfg"] if ctx.quick else [
+        "Hooks_thorough_a.cfg", "Hooks_thorough_b.cfg", "Hooks_gen_thorough.cfg"]
     auth_cfg = "HooksAuth_quick.cfg" if ctx.quick else "HooksAuth_thorough.cfg"
     states = transitions = 0
     timings: dict = {}
@@ -522,7 +604,7 @@ def run(ctx: Ctx) -> Outcome:
         dis_idx: list[int] = []
         for i, (item, r) in enumerate(zip(items, results)):
             evaluations += 1
-            if '"C' in item or '"unreg"' in item:
+            if '"C' in item or '"unreg"' in item or '"gen"' in item:
                 nontrivial += 1
             if r["err"] or _hook_bad(json.loads(item), r):
                 dis_idx.append(i)
@@ -532,8 +614,8 @@ def run(ctx: Ctx) -> Outcome:
         to_confirm: list[int] = []
         for i in dis_idx:
             case = json.loads(items[i])
-            sigs = {hook_signature(case["events"], h, d, results[i]["obs"][h - 1] if o else None)
-                    for h, o, d in hook_disagreements(case["expect"], results[i], case["events"])} or {"data"}
+            sigs = {_cell_signature(case, results[i], cell, cat["ops"])
+                    for cell in hook_disagreements(case["expect"], results[i], case["events"])} or {"data"}
             if any(per_sig.get(sg, 0) < 60 for sg in sigs):
                 to_confirm.append(i)
             for sg in sigs:
@@ -549,17 +631,17 @@ def run(ctx: Ctx) -> Outcome:
         # the reuse shortcut itself is validated on a random sample of agreeing histories
         dis_set = set(dis_idx)
         agree_idx = [i for i in range(len(items)) if i not in dis_set]
-        probe = common.sample(rng, agree_idx, 320 if ctx.quick else 3000)
+        probe = common.sample(rng, agree_idx, 160 if ctx.quick else 2000)
         for i, r in zip(probe, common.pmap(_work_hooks_fresh, [items[i] for i in probe])):
             if r["obs"] != results[i]["obs"]:
                 raise tlc.TLCFailure("schema reuse changes the observation for %s" % items[i])
         # code -> spec: TLC judges every confirmed disagreement and a random sample of agreeing observations
         judged = confirmed[:20000] + [(json.loads(items[i]), results[i]) for i in common.sample(rng, agree_idx, 6000 if ctx.quick else 20000)]
         obs_file = ctx.path("hooks_obs.json")
-        tlc.write_json(obs_file, [{"events": c["events"], "obs": r["obs"], "err": r["err"]} for c, r in judged])
+        tlc.write_json(obs_file, [{"events": c["events"], "order": c.get("order", "AB"), "obs": r["obs"], "err": r["err"]} for c, r in judged])
         jres = tlc.require_ok(tlc.run_tlc("HooksJudge", "HooksJudge.cfg", env={"OBS_FILE": obs_file}, timeout=3000), "hooks judge")
-        tlc_dis = {(p[1], p[2], p[3], p[4]) for p in jres.prints if isinstance(p, list) and p and p[0] == "DISAGREE"}
-        py_dis = {(i, h, o, d) for i, (c, r) in enumerate(judged, 1) for h, o, d in hook_disagreements(c["expect"], r, c["events"])}
+        tlc_dis = {(p[1], p[2], p[3], p[4], p[5]) for p in jres.prints if isinstance(p, list) and p and p[0] == "DISAGREE"}
+        py_dis = {(i, j, h, o, d) for i, (c, r) in enumerate(judged, 1) for j, h, o, d in hook_disagreements(c["expect"], r, c["events"])}
         if tlc_dis != py_dis:
             raise tlc.TLCFailure("hooks judge (TLC) and exporter disagree on %d cells: %s" % (
                 len(tlc_dis ^ py_dis), sorted(tlc_dis ^ py_dis)[:5]))
@@ -609,7 +691,7 @@ def run(ctx: Ctx) -> Outcome:
     for sg, n in per_sig.items():
         unconfirmed[sg] = unconfirmed.get(sg, 0) + n
     for i in common.sample(rng, agree, 60 if ctx.quick else 1500):
-        if observe_auth(concretise(json.loads(items[i])["events"], cat), cat["ops"], fresh=True) != results[i]:
+        if _work_auth_fresh(items[i]) != results[i]:
             raise tlc.TLCFailure("schema reuse changes the auth observation for %s" % items[i])
     judged_a = bad[:20000] + [(json.loads(items[i]), results[i]) for i in common.sample(rng, agree, 2000 if ctx.quick else 10000)]
     obs_file = ctx.path("auth_obs.json")
@@ -631,10 +713,11 @@ def run(ctx: Ctx) -> Outcome:
             seen_sig.add(sig)
             op = cat["ops"][o - 1]
             out.violations.append(Violation(
-                sig, "auth %s for %s %s: observed provider %s, may=%s must=%s in history: %s" % (
-                    kind, text(op["method"]).upper(), text(op["path"]), obs[o - 1], [r[o - 1] for r in case["may"]], case["must"][o - 1],
-                    _short(case["events"])),
-                {"kind": "auth", "events": concretise(case["events"], cat), "ops": cat["ops"], "may": case["may"], "must": case["must"]},
+                sig, "auth %s for %s %s of schema %s: observed provider %s, may=%s must=%s in history: %s [schemas used in order %s]" % (
+                    kind, text(op["method"]).upper(), text(op["path"]), op.get("schema", "A"), obs[o - 1], [r[o - 1] for r in case["may"]],
+                    case["must"][o - 1], _short(case["events"]), case.get("order", "AB")),
+                {"kind": "auth", "events": concretise(case["events"], cat), "ops": cat["ops"], "order": case.get("order", "AB"),
+                 "may": case["may"], "must": case["must"]},
             ))
     pool = [(json.loads(items[i]), results[i]) for i in common.sample(rng, [j for j in agree if '"C' in items[j]] or agree, 2)]
     samples += [{"history": _short(c["events"]), "may": c["may"], "must": c["must"], "observed_provider_per_operation": o} for c, o in pool]
@@ -647,8 +730,10 @@ def run(ctx: Ctx) -> Outcome:
         "evaluations": evaluations,
         "distinct_nontrivial": nontrivial,
         "rule": "every registration/unregistration history reachable in Hooks.tla under %s and every auth history of HooksAuth.tla under %s "
-                "(TLC-enumerated; each replayed once on new dispatchers / storages and evaluated against all %d operations by generating a "
-                "case through the real strategy); non-trivial = the history contains a filter chain or an unregistration" % (
+                "(TLC-enumerated; each replayed once on new dispatchers / storages; at every Generate step and at the end a case is generated "
+                "through the real strategy for all %d operations of two schemas sharing operation labels, on the same schema / operation "
+                "objects, in both schema orders); non-trivial = the history contains a filter chain, an unregistration or an intermediate "
+                "generation" % (
                     "+".join(hook_cfgs), auth_cfg, len(cat["ops"])),
         "exhaustive": True,
         "family_sizes": fam,
@@ -662,7 +747,9 @@ def run(ctx: Ctx) -> Outcome:
         "stands for the import-time global dispatcher of a new interpreter",
         "per process one schema object is reused with its hooks / hook / auth fields re-created as for a new instance; every "
         "disagreement and a random sample of agreements are re-observed on a newly loaded schema",
-        "one generated case per (history, operation): hooks are attached structurally when the strategy is built, so one draw shows them",
+        "one generated case per (generation, operation): hooks are attached structurally when the strategy is built, so one draw shows them",
+        "two schemas with same-label operations stand for 'several API schemas in one process'; schema- and test-scope extensions "
+        "belong to schema A, schema B is generated without a test dispatcher / auth storage",
         "test scope is exercised as the pytest plugin does it: as_strategy(hooks=HookDispatcherMark.get(test), auth_storage=AuthStorageMark.get(test))",
         "auth: which of several applicable providers wins and whether a more specific scope shadows another is not fixed by the property "
         "(judged for soundness only in those histories)",
@@ -671,15 +758,17 @@ def run(ctx: Ctx) -> Outcome:
 
 
 def replay(ctx: Ctx, data: dict) -> Outcome:
+    global _CAT
     out = Outcome()
     if data.get("kind") == "spec":
         return out
     if data["kind"] == "hooks":
-        r = observe_hooks(data["events"], data["ops"], fresh=True)
-        case = {"events": data["events"], "expect": data["expect"]}
+        r = observe_hooks(data["events"], data["ops"], data.get("order", "AB"), fresh=True)
+        case = {"events": data["events"], "expect": data["expect"], "order": data.get("order", "AB")}
         out.violations += _hook_violations(case, r, {"ops": data["ops"], "chains": {e["c"]: e["chain"] for e in data["events"] if e.get("c", "-") != "-"}})
     else:
-        obs = observe_auth(data["events"], data["ops"], fresh=True)
+        _CAT = {"ops": data["ops"]}
+        obs = observe_auth(data["events"], data["ops"], data.get("order", "AB"), fresh=True)
         for o, kind in auth_verdicts(data, obs):
             out.violations.append(Violation(auth_signature(data, o, kind, obs), "auth %s for operation %d: observed %s" % (kind, o, obs), data))
     return out
@@ -688,31 +777,39 @@ def replay(ctx: Ctx, data: dict) -> Outcome:
 def selftest(ctx: Ctx) -> bool:
     """Binding: corrupted observations must be rejected by the TLA+ judges, faithful ones accepted."""
     ev = [{"ev": "reg", "r": "schema", "f": "filt_bare", "c": "C1", "n": "map_query", "t": 0},
-          {"ev": "reg", "r": "schema", "f": "filt_bare", "c": "C3", "n": "filter_query", "t": 0},
+          {"ev": "gen", "r": "-", "f": "without_test", "c": "-", "n": "-", "t": 0},
+          {"ev": "reg", "r": "global", "f": "filt_bare", "c": "C2", "n": "filter_query", "t": 0},
           {"ev": "unreg", "r": "schema", "f": "-", "c": "-", "n": "-", "t": 1}]
-    good = {"events": ev, "obs": [[0, 0, 0, 0], [0, 0, 0, 1]], "err": 0}
-    bad1 = {"events": ev, "obs": [[1, 0, 1, 0], [0, 0, 0, 1]], "err": 0}  # the unregistered hook still applied
-    bad2 = {"events": ev[:2], "obs": [[1, 0, 1, 0], [1, 0, 1, 0]], "err": 0}  # second hook shows the first hook's filter
+    g1 = [[1, 0, 1, 0, 0, 0]]
+    good = {"events": ev, "order": "BA", "obs": [g1, [[0] * 6, [1, 0, 1, 0, 0, 1]]], "err": 0}
+    # the unregistered hook is still applied at the final generation (what it was at the first one)
+    bad1 = dict(good, obs=[g1, [[1, 0, 1, 0, 0, 0], [1, 0, 1, 0, 0, 1]]])
+    # the global tag filter gives schema B's operations the answers of their same-label twins of schema A
+    bad2 = dict(good, obs=[g1, [[0] * 6, [1, 0, 1, 0, 1, 0]]])
+    bad3 = dict(good, obs=[], err=3)  # the second registration raised
     f = ctx.path("obs.json")
-    bad3 = {"events": ev[:2], "obs": [], "err": 2}  # the second registration raised
     tlc.write_json(f, [good, bad1, bad2, bad3])
     r = tlc.require_ok(tlc.run_tlc("HooksJudge", "HooksJudge.cfg", env={"OBS_FILE": f}), "selftest hooks")
     dis = sorted(tuple(p[1:]) for p in r.prints if isinstance(p, list) and p and p[0] == "DISAGREE")
-    ok1 = dis == [(2, 1, 1, "spurious"), (2, 1, 3, "spurious"), (3, 2, 1, "spurious"), (3, 2, 3, "spurious"), (3, 2, 4, "missing"),
-                  (4, 2, 0, "raised")]
+    want = sorted([(2, 2, 1, 1, "spurious"), (2, 2, 1, 3, "spurious"),
+                   (3, 2, 2, 5, "spurious"), (3, 2, 2, 6, "missing"),
+                   (4, 0, 2, 0, "raised")])
+    ok1 = dis == want
+    py = sorted((i, j, h, o, d) for i, ob in enumerate([good, bad1, bad2, bad3], 1)
+                for j, h, o, d in hook_disagreements(good["obs"], ob, ev))
+    ok1 = ok1 and py == want
     aev = [{"ev": "areg", "s": "schema", "f": "register", "c": "C1"}]
-    tlc.write_json(f, [{"events": aev, "obs": [1, 0, 1, 0]}, {"events": aev, "obs": [1, 1, 1, 0]}, {"events": aev, "obs": [0, 0, 1, 0]}])
+    tlc.write_json(f, [{"events": aev, "obs": [1, 0, 1, 0, 0, 0]}, {"events": aev, "obs": [1, 1, 1, 0, 0, 0]},
+                       {"events": aev, "obs": [0, 0, 1, 0, 0, 0]}, {"events": aev, "obs": [1, 0, 1, 0, 1, 0]}])
     r = tlc.require_ok(tlc.run_tlc("HooksAuthJudge", "HooksAuthJudge.cfg", env={"OBS_FILE": f}), "selftest auth")
-    dis = sorted(tuple(p[1:]) for p in r.prints if isinstance(p, list) and p and p[0] == "DISAGREE")
-    ok2 = dis == [(2, 2, "unsound"), (3, 1, "incomplete")]
-    # and the replay machinery itself distinguishes hooks: an unfiltered and a filtered hook give different rows
+    adis = sorted(tuple(p[1:]) for p in r.prints if isinstance(p, list) and p and p[0] == "DISAGREE")
+    ok2 = adis == [(2, 2, "unsound"), (3, 1, "incomplete"), (4, 5, "unsound")]
+    # and the replay machinery itself distinguishes hooks, generations and schemas
     cat_res, items, cat = _enumerate("HooksAuth", "HooksAuth_quick.cfg")
-    events = concretise([{"ev": "reg", "r": "schema", "f": "filt_bare", "c": "C1", "n": "map_query", "t": 0},
-                         {"ev": "reg", "r": "global", "f": "bare", "c": "-", "n": "filter_body", "t": 0}], cat)
-    r2 = observe_hooks(events, cat["ops"], fresh=True)
-    ok3 = r2["obs"][1] == [1, 1, 1, 1] and r2["obs"][0] in ([1, 0, 1, 0],)
+    r2 = observe_hooks(concretise(ev, cat), cat["ops"], "BA", fresh=True)
+    ok3 = r2["obs"] == good["obs"]
     if not (ok1 and ok2 and ok3):
-        print("selftest details:", ok1, ok2, ok3, dis, r2)
+        print("selftest details:", ok1, ok2, ok3, dis, py, adis, r2)
     return ok1 and ok2 and ok3
 
 
